@@ -73,6 +73,10 @@ def kv_to_md(delta_study, delta_trials):
   return d
 
 
+# what a failing algorithm's exception may carry: a message, nothing, a number, (errno, text), a message and a tuple
+FAIL_ARGS = [('scripted failure',), (7,), (), (2, 'No such file'), ('bad shape', (3, 4))]
+
+
 class Scripted(pythia.Policy):
 
   def __init__(self, holder):
@@ -82,7 +86,7 @@ class Scripted(pythia.Policy):
     self.h.calls += 1
     out = self.h.outcome
     if out[0] == 'fail':
-      raise out[1]('scripted failure')
+      raise out[1](*FAIL_ARGS[self.h.calls % len(FAIL_ARGS)])
     _, params, smd, tmd = out
     return pythia.SuggestDecision([vz.TrialSuggestion({'x': p / 100.0}) for p in params], kv_to_md(smd, tmd))
 
@@ -90,7 +94,7 @@ class Scripted(pythia.Policy):
     self.h.calls += 1
     out = self.h.outcome
     if out[0] == 'fail':
-      raise out[1]('scripted failure')
+      raise out[1](*FAIL_ARGS[self.h.calls % len(FAIL_ARGS)])
     _, decisions, smd, tmd = out
     ds = pythia.EarlyStopDecisions([pythia.EarlyStopDecision(id=i, reason='r', should_stop=b) for i, b in decisions],
                                    kv_to_md(smd, tmd))
@@ -381,7 +385,8 @@ def apply_rpc(serv, holder, rpc):
       return ('Done', 'RpTrial', c_trial(r))
     if kind == 'CompleteTrial':
       _, o, sid, tid, final, infeasible = rpc
-      req = vs.CompleteTrialRequest(name=trial_name(o, sid, tid), trial_infeasible=infeasible, infeasible_reason='why' if infeasible else '')
+      req = vs.CompleteTrialRequest(name=trial_name(o, sid, tid), trial_infeasible=infeasible,
+                                    infeasible_reason='why' if infeasible and tid % 2 else '')   # a reason is optional
       if final:
         req.final_measurement.CopyFrom(mk_measurement(final))
       r = serv.CompleteTrial(req)
@@ -827,11 +832,43 @@ def c10_e2e(rep, tier, seed, known):
                              profile={'md': 0.4}, nseq_quick=30, nseq_thorough=400, tag='e2e')
 
 
+def pareto_sequence(r):
+  """One study with 1 or 2 objectives; trials completed with small-integer vectors (many ties), some infeasible WITH a full final
+  measurement, some without all metrics, some NaN; ListOptimalTrials after most completions."""
+  nm = r.choice([1, 2, 2])
+  metrics = [(1, r.random() < 0.5)] + ([(2, r.random() < 0.5)] if nm == 2 else [])
+  seq = [('CreateStudy', 1, 1, False, 'SS_ACTIVE', metrics)]
+  n = r.randrange(3, 9)
+  seq.append(('SuggestTrials', 1, 1, 1, n, ('deliver', [r.randrange(100) for _ in range(n)], [], [])))
+  order = list(range(1, n + 1))
+  r.shuffle(order)
+  for tid in order:
+    u = r.random()
+    meas = [(m, r.randrange(0, 3)) for m, _ in metrics]
+    if u < 0.12:
+      meas = meas[:-1]                       # a metric is missing
+    elif u < 0.18:
+      meas[0] = (meas[0][0], 'nan')
+    elif u < 0.24:
+      meas[-1] = (meas[-1][0], r.choice(['inf', '-inf']))
+    infeasible = r.random() < 0.3
+    if infeasible and r.random() < 0.5:
+      meas = [(m, r.choice([5, 6])) if mx else (m, -1) for m, mx in metrics]      # would dominate everything if it counted
+    seq.append(('CompleteTrial', 1, 1, tid, meas, infeasible))
+    if r.random() < 0.7:
+      seq.append(('ListOptimalTrials', 1, 1))
+  seq.append(('ListOptimalTrials', 1, 1))
+  return seq
+
+
 def c11_e2e(rep, tier, seed, known):
   from harness import svcrun, svcmon, common as C
   r = C.rng(seed, 'c11e2e')
 
   def matcher(what, before, rpc, out, after):
     return 'C11-nan-objective-listed' if what.startswith('NAN:') else None
-  return svcrun.service_part(rep, 'C11', r, tier, known, monitors=[svcrun.wrap(svcmon.c11_step)], known_matcher=matcher,
-                             profile={'optimal': 0.25}, nseq_quick=30, nseq_thorough=400, tag='e2e')
+  b1, c1 = svcrun.service_part(rep, 'C11', r, tier, known, monitors=[svcrun.wrap(svcmon.c11_step)], known_matcher=matcher,
+                               profile={'optimal': 0.25}, nseq_quick=30, nseq_thorough=400, tag='e2e')
+  b2, c2 = svcrun.service_part(rep, 'C11', r, tier, known, monitors=[svcrun.wrap(svcmon.c11_step)], known_matcher=matcher,
+                               nseq_quick=25, nseq_thorough=300, tag='pareto', seqgen=pareto_sequence)
+  return (b1 or b2), (c1 or c2)
